@@ -280,7 +280,8 @@ func propRaceCache(t *rapid.T) {
 	r.GET("/posts/{id}", h("post"))
 	r.GET("/{id}/x", h("x"))
 	type q struct{ path, want string }
-	all := []q{{"/users/1", "user:1"}, {"/users/2", "user:2"}, {"/posts/1", "post:1"}, {"/posts/3", "post:3"}, {"/7/x", "x:7"}, {"/users/33", "user:33"}}
+	all := []q{{"/users/1", "user:1"}, {"/users/2", "user:2"}, {"/posts/1", "post:1"}, {"/posts/3", "post:3"}, {"/7/x", "x:7"}, {"/users/33", "user:33"},
+		{"/users/tom", "user:tom"}, {"/users/Tom", "user:Tom"}, {"/users/TOM", "user:TOM"}} // paths that differ in letter case only
 	np := rapid.IntRange(2, 4).Draw(t, "npaths")
 	qs := rapid.SliceOfNDistinct(rapid.SampledFrom(all), np, np, func(x q) string { return x.path }).Draw(t, "paths")
 	ng := rapid.IntRange(4, ev.Pick(8, 16)).Draw(t, "goroutines")
@@ -351,15 +352,34 @@ func propRaceCopy(t *rapid.T) {
 		_ = os.WriteFile(f, b, 0o644)
 	}
 	var jobs sync.WaitGroup
+	var done sync.Map // request id -> channel closed by the client when ServeHTTP has returned
 	bad := make(chan string, 64)
 	r.GET("/job/{id}", func(c *rux.Context) {
 		id := c.Param("id")
 		c.Set("owner", id)
 		c.AddError(fmt.Errorf("warning of %s", id))
 		cp := c.Copy()
+		// the handler also hands the map of its values (c.Data()) to the job, which looks at it once the request is
+		// over: nobody writes to it then - unless a later request is given the very same map
+		kept := c.Data()
+		doneCh, _ := done.Load(id)
 		jobs.Add(1)
 		go func() {
 			defer jobs.Done()
+			if ch, ok := doneCh.(chan struct{}); ok {
+				defer func() {
+					<-ch
+					for i := 0; i < 3; i++ {
+						if v := kept["owner"]; v != id {
+							select {
+							case bad <- fmt.Sprintf("the values of job %s, looked at after its request ended: owner=%v", id, v):
+							default:
+							}
+							return
+						}
+					}
+				}()
+			}
 			for i := 0; i < 3; i++ {
 				if v, _ := cp.Get("owner"); v != id || cp.Param("id") != id || len(cp.Errors) < 1 || cp.Errors[0].Error() != "warning of "+id {
 					select {
@@ -386,8 +406,11 @@ func propRaceCopy(t *rapid.T) {
 			defer wg.Done()
 			for k := 0; k < rounds; k++ {
 				id := fmt.Sprintf("c%dk%d", g, k)
+				ch := make(chan struct{})
+				done.Store(id, ch)
 				rec := httptest.NewRecorder()
 				r.ServeHTTP(rec, &http.Request{Method: "GET", URL: &url.URL{Path: "/job/" + id}, Header: http.Header{}})
+				close(ch)
 				if rec.Body.String() != "started "+id {
 					select {
 					case bad <- fmt.Sprintf("GET /job/%s answered %q", id, rec.Body.String()):
